@@ -17,7 +17,7 @@ func init() { register("C09", checkC09) }
 func genC09(t *rapid.T) *Case {
 	p := carrierProfile()
 	p.CommaURLs = true
-	p.Inline = append(append([]wc{}, p.Inline...), wc{"joined", 2}, wc{"escaped", 3})
+	p.Inline = append(append([]wc{}, p.Inline...), wc{"joined", 2}, wc{"escaped", 3}, wc{"litword", 2})
 	p.EscapedText = true
 	p.InlineBlocksInCells = true
 	mode := rapid.IntRange(0, 2).Draw(t, "c09mode")
